@@ -151,6 +151,7 @@ type Interp struct {
 	rtErrType      types.Type
 	errorType      types.Type
 	sched          *scheduler
+	syncMaps       map[*Value]*MapObj
 }
 
 type shared struct {
@@ -654,6 +655,7 @@ func (it *Interp) runPath(entry *ssa.Function, prefix []dec) {
 	it.reached = map[string]bool{}
 	it.assertsOK = 0
 	it.sched = nil
+	it.syncMaps = nil
 	outcome := "ok"
 	func() {
 		defer func() {
